@@ -1,71 +1,102 @@
 -------------------------- MODULE BackgroundRotation --------------------------
 (***************************************************************************)
-(* Growth beyond the listed properties: the hand-off protocol of the          *)
-(* `background_rotation` feature (fixed_window.rs, FixedWindowRoller::roll    *)
-(* with cfg(feature = "background_rotation")).                                *)
+(* The hand-off protocol of the `background_rotation` feature                 *)
+(* (fixed_window.rs, FixedWindowRoller::roll with cfg(feature =               *)
+(* "background_rotation")), including appender restarts inside one process    *)
+(* (a reconfiguration builds a new appender - and a new roller - for the same *)
+(* path while the old roller's rotation thread may still be running).         *)
 (*                                                                         *)
 (* The appender thread (holding the appender's mutex, so there is one at a    *)
 (* time) renames the active file to a temporary name, waits until the         *)
 (* previous background rotation has finished (`ready`), clears `ready` and    *)
-(* spawns a thread that takes the same lock, rotates, sets `ready` and        *)
-(* notifies.  parking_lot's Condvar has no spurious wake-ups, so the single   *)
+(* spawns a thread that takes the same lock, rotates step by step (shift      *)
+(* Count-2 .. 0, then the final move), sets `ready` and notifies.             *)
+(* parking_lot's Condvar has no spurious wake-ups, so the single              *)
 (* `if !*ready { wait }` is modelled as such.                                 *)
-(* Checked: at most one rotation runs at a time, rotations run in the order   *)
-(* they were requested, the window content equals what synchronous rotation   *)
-(* would produce at quiescence, and (under weak fairness of the spawned       *)
-(* threads) every temporary file is eventually archived.                      *)
+(*                                                                         *)
+(* `ready` and its lock live in the roller's cond_pair.  SharedHandOff says   *)
+(* whether rollers built for the same pattern share that pair (TRUE: one cell *)
+(* for all generations) or each roller has its own (FALSE: the code before    *)
+(* repair F14).  With FALSE, TLC finds rotations of two generations           *)
+(* interleaving step by step: an archive is overwritten (InWindowOrGone) or   *)
+(* archives end up out of order (QuiescentWindow).                            *)
 (***************************************************************************)
 EXTENDS Integers, Sequences, FiniteSets, TLC
-CONSTANTS MaxRolls, Count
-VARIABLES fg,        \* appender thread: "idle" | "renamed" | "waiting" | "spawn"
-          ready,     \* the flag under the lock
-          lockHolder,\* 0 = free, -1 = appender thread, k = rotation thread k
-          temps,     \* temp files on disk: sequence of chunk ids in creation order
-          bg,        \* k -> "spawned" | "locked" | "done"
-          window,    \* archives, newest first
-          requested, \* number of rolls requested so far
-          order      \* chunk ids in the order the rotations actually ran
-vars == <<fg, ready, lockHolder, temps, bg, window, requested, order>>
+CONSTANTS MaxRolls, Count, MaxRestarts, SharedHandOff
+VARIABLES fg,        \* appender thread: "idle" | "renamed" | "waiting" | "parked" | "spawn"
+          gen,       \* generation of the live roller (restarts so far)
+          ready,     \* cell -> the flag under the lock
+          lockHolder,\* cell -> 0 = free, -1 = appender thread, k = rotation thread k
+          temps,     \* temp files on disk: set of chunk ids
+          bg,        \* k -> "none" | "spawned" | "locked" | "done"
+          bgGen,     \* k -> generation of the roller that spawned thread k
+          ri,        \* k -> next shift index of thread k (-1 = final move)
+          window,    \* index 0..Count-1 -> chunk id (0 = absent)
+          requested  \* number of rolls requested so far
+vars == <<fg, gen, ready, lockHolder, temps, bg, bgGen, ri, window, requested>>
 Threads == 1..MaxRolls
-Init == fg = "idle" /\ ready = TRUE /\ lockHolder = 0 /\ temps = <<>> /\ bg = [k \in Threads |-> "none"]
-        /\ window = <<>> /\ requested = 0 /\ order = <<>>
+Gens == 0..MaxRestarts
+Cell(g) == IF SharedHandOff THEN 0 ELSE g
+Cells == {Cell(g) : g \in Gens}
+Init == /\ fg = "idle" /\ gen = 0 /\ ready = [c \in Cells |-> TRUE] /\ lockHolder = [c \in Cells |-> 0]
+        /\ temps = {} /\ bg = [k \in Threads |-> "none"] /\ bgGen = [k \in Threads |-> 0]
+        /\ ri = [k \in Threads |-> 0] /\ window = [i \in 0..Count - 1 |-> 0] /\ requested = 0
 \* move_file(file, temp)
-Rename == fg = "idle" /\ requested < MaxRolls /\ requested' = requested + 1 /\ temps' = Append(temps, requested + 1)
-          /\ fg' = "renamed" /\ UNCHANGED <<ready, lockHolder, bg, window, order>>
+Rename == /\ fg = "idle" /\ requested < MaxRolls /\ requested' = requested + 1 /\ temps' = temps \cup {requested + 1}
+          /\ fg' = "renamed" /\ UNCHANGED <<gen, ready, lockHolder, bg, bgGen, ri, window>>
 \* lock.lock()
-FgLock == fg = "renamed" /\ lockHolder = 0 /\ lockHolder' = -1 /\ fg' = (IF ready THEN "spawn" ELSE "waiting")
-          /\ UNCHANGED <<ready, temps, bg, window, requested, order>>
+FgLock == /\ fg = "renamed" /\ lockHolder[Cell(gen)] = 0 /\ lockHolder' = [lockHolder EXCEPT ![Cell(gen)] = -1]
+          /\ fg' = (IF ready[Cell(gen)] THEN "spawn" ELSE "waiting")
+          /\ UNCHANGED <<gen, ready, temps, bg, bgGen, ri, window, requested>>
 \* cvar.wait releases the lock; the wake-up re-acquires it
-FgWaitRelease == fg = "waiting" /\ lockHolder = -1 /\ lockHolder' = 0 /\ fg' = "parked"
-                 /\ UNCHANGED <<ready, temps, bg, window, requested, order>>
-FgWake == fg = "parked" /\ ready /\ lockHolder = 0 /\ lockHolder' = -1 /\ fg' = "spawn"
-          /\ UNCHANGED <<ready, temps, bg, window, requested, order>>
+FgWaitRelease == /\ fg = "waiting" /\ lockHolder[Cell(gen)] = -1 /\ lockHolder' = [lockHolder EXCEPT ![Cell(gen)] = 0]
+                 /\ fg' = "parked" /\ UNCHANGED <<gen, ready, temps, bg, bgGen, ri, window, requested>>
+FgWake == /\ fg = "parked" /\ ready[Cell(gen)] /\ lockHolder[Cell(gen)] = 0
+          /\ lockHolder' = [lockHolder EXCEPT ![Cell(gen)] = -1] /\ fg' = "spawn"
+          /\ UNCHANGED <<gen, ready, temps, bg, bgGen, ri, window, requested>>
 \* *ready = false; drop(ready); thread::spawn(..)
-Spawn == fg = "spawn" /\ lockHolder = -1 /\ ready' = FALSE /\ lockHolder' = 0
-         /\ bg' = [bg EXCEPT ![requested] = "spawned"] /\ fg' = "idle"
-         /\ UNCHANGED <<temps, window, requested, order>>
-BgLock(k) == bg[k] = "spawned" /\ lockHolder = 0 /\ lockHolder' = k /\ bg' = [bg EXCEPT ![k] = "locked"]
-             /\ UNCHANGED <<fg, ready, temps, window, requested, order>>
-\* rotate(temp k); *ready = true; notify_one(); unlock
-Min(a, b) == IF a < b THEN a ELSE b
-BgRotate(k) == /\ bg[k] = "locked" /\ lockHolder = k
-               /\ window' = SubSeq(<<k>> \o window, 1, Min(Count, Len(window) + 1))
-               /\ temps' = SelectSeq(temps, LAMBDA x : x # k)
-               /\ order' = Append(order, k)
-               /\ ready' = TRUE /\ lockHolder' = 0 /\ bg' = [bg EXCEPT ![k] = "done"]
-               /\ UNCHANGED <<fg, requested>>
-Next == Rename \/ FgLock \/ FgWaitRelease \/ FgWake \/ Spawn \/ \E k \in Threads : BgLock(k) \/ BgRotate(k)
+Spawn == /\ fg = "spawn" /\ lockHolder[Cell(gen)] = -1
+         /\ ready' = [ready EXCEPT ![Cell(gen)] = FALSE] /\ lockHolder' = [lockHolder EXCEPT ![Cell(gen)] = 0]
+         /\ bg' = [bg EXCEPT ![requested] = "spawned"] /\ bgGen' = [bgGen EXCEPT ![requested] = gen]
+         /\ ri' = [ri EXCEPT ![requested] = Count - 2] /\ fg' = "idle"
+         /\ UNCHANGED <<gen, temps, window, requested>>
+\* the appender is dropped and a new one (with a new roller) is built for the same path: nothing waits for the
+\* rotation thread of the old roller
+Restart == /\ fg = "idle" /\ gen < MaxRestarts /\ gen' = gen + 1
+           /\ UNCHANGED <<fg, ready, lockHolder, temps, bg, bgGen, ri, window, requested>>
+BgLock(k) == /\ bg[k] = "spawned" /\ lockHolder[Cell(bgGen[k])] = 0
+             /\ lockHolder' = [lockHolder EXCEPT ![Cell(bgGen[k])] = k] /\ bg' = [bg EXCEPT ![k] = "locked"]
+             /\ UNCHANGED <<fg, gen, ready, temps, bgGen, ri, window, requested>>
+\* one filesystem step of rotate(): rename window[i] -> window[i+1] (a missing source is skipped, an existing
+\* destination is replaced)
+BgShift(k) == /\ bg[k] = "locked" /\ ri[k] >= 0
+              /\ window' = IF window[ri[k]] = 0 THEN window
+                           ELSE [window EXCEPT ![ri[k] + 1] = window[ri[k]], ![ri[k]] = 0]
+              /\ ri' = [ri EXCEPT ![k] = @ - 1]
+              /\ UNCHANGED <<fg, gen, ready, lockHolder, temps, bg, bgGen, requested>>
+\* the final move temp -> window[0]; *ready = true; notify_one(); unlock
+BgFinal(k) == /\ bg[k] = "locked" /\ ri[k] = -1
+              /\ window' = [window EXCEPT ![0] = k] /\ temps' = temps \ {k}
+              /\ ready' = [ready EXCEPT ![Cell(bgGen[k])] = TRUE]
+              /\ lockHolder' = [lockHolder EXCEPT ![Cell(bgGen[k])] = 0] /\ bg' = [bg EXCEPT ![k] = "done"]
+              /\ UNCHANGED <<fg, gen, bgGen, ri, requested>>
+Next == Rename \/ FgLock \/ FgWaitRelease \/ FgWake \/ Spawn \/ Restart
+        \/ \E k \in Threads : BgLock(k) \/ BgShift(k) \/ BgFinal(k)
 \* fairness: every thread that can take a step eventually does (the appender thread inside roll() included;
-\* whether another record arrives at all - Rename - is not assumed)
+\* whether another record arrives at all - Rename - or a restart happens is not assumed)
 Spec == Init /\ [][Next]_vars /\ WF_vars(FgLock) /\ WF_vars(FgWaitRelease) /\ WF_vars(FgWake) /\ WF_vars(Spawn)
-             /\ \A k \in Threads : WF_vars(BgLock(k)) /\ WF_vars(BgRotate(k))
+             /\ \A k \in Threads : WF_vars(BgLock(k)) /\ WF_vars(BgShift(k)) /\ WF_vars(BgFinal(k))
 
-OneRotationAtATime == Cardinality({k \in Threads : bg[k] \in {"spawned", "locked"}}) <= 1
-InOrder == \A i \in 1..Len(order) : order[i] = i
-\* at quiescence the window is what synchronous rotation produces
-RECURSIVE Newest(_, _)
-Newest(n, c) == IF n = 0 \/ c = 0 THEN <<>> ELSE <<n>> \o Newest(n - 1, c - 1)
-QuiescentWindow == (fg = "idle" /\ \A k \in Threads : bg[k] \in {"none", "done"}) => window = Newest(requested, Count) /\ temps = <<>>
+OneRotationAtATime == Cardinality({k \in Threads : bg[k] = "locked"}) <= 1
+Quiescent == fg = "idle" /\ \A k \in Threads : bg[k] \in {"none", "done"}
+\* at quiescence the window is what synchronous rotation produces: the newest Count chunks, newest first
+QuiescentWindow == Quiescent => /\ temps = {}
+                                /\ \A i \in 0..Count - 1 : window[i] = (IF requested - i >= 1 THEN requested - i ELSE 0)
+\* a chunk whose rotation has finished is in the window unless Count newer ones have finished as well
+InWindowOrGone == \A k \in Threads : bg[k] = "done" =>
+                     \/ \E i \in 0..Count - 1 : window[i] = k
+                     \/ Cardinality({j \in Threads : j > k /\ bg[j] \in {"locked", "done"}}) >= 1 /\ Count = 1
+                     \/ Cardinality({j \in Threads : j > k /\ bg[j] \in {"locked", "done"}}) >= Count
 \* every temporary file is eventually archived (or evicted from the window): none is orphaned
 NoOrphan == \A k \in Threads : (bg[k] = "spawned") ~> (bg[k] = "done")
 =============================================================================
